@@ -60,6 +60,17 @@ def mk_quat_ops():
     ops["DCM.from_quaternion"] = (qrow, lambda r: DCM().from_quaternion(r.copy()), lambda rs: DCM().from_quaternion(stack(rs)), "exact")
     ops["q_conj"] = (qrow, lambda r: ori.q_conj(r.copy()), lambda rs: ori.q_conj(stack(rs)), "exact")
     ops["q_norm"] = (lambda c: qrow(c) * 3.5, lambda r: ori.q_norm(r.copy()), lambda rs: ori.q_norm(stack(rs)), "exact")
+    ops["from_angles"] = (lambda c: np.array(ANG[c]), lambda r: np.asarray(Quaternion(angles=r.copy())), lambda rs: np.asarray(QuaternionArray(angles=stack(rs))), "exact")
+
+    def from_dcm_inplace(rs):
+        Q = QuaternionArray(np.tile([0.5, -0.5, 0.5, 0.5], (len(rs), 1)))
+        ret = Q.from_DCM(stack(rs), inplace=True)
+        return np.asarray(Q.array if ret is None else ret)
+    ops["from_DCM.inplace"] = (Rrow, lambda r: np.asarray(Quaternion(dcm=r.copy())), from_dcm_inplace, "exact")
+    for flag in ("is_pure", "is_real", "is_versor", "is_identity"):
+        ops[flag] = (qrow, lambda r, flag=flag: np.array(float(getattr(Quaternion(r), flag)())), lambda rs, flag=flag: np.asarray(getattr(QuaternionArray(stack(rs)), flag)(), dtype=float), "exact")
+    ops["rmse_matrices"] = (lambda c: (core.g_rot((2, -1, 3, 1)), core.g_rot((2, -1, 3, 1)) @ Rrow(c)), lambda r: MT.rmse_matrices(r[0], r[1]),
+                            lambda rs: MT.rmse_matrices(stack([r[0] for r in rs]), stack([r[1] for r in rs])), "exact")
     for m, kw in (("shepperd", {}), ("hughes", {}), ("chiaverini", {}), ("sarabandi", {}), ("itzhack1", {"version": 1}), ("itzhack2", {"version": 2}), ("itzhack3", {"version": 3})):
         mm = m.rstrip("123")
         ops["from_DCM." + m] = (Rrow, lambda r, mm=mm, kw=kw: np.asarray(Quaternion(dcm=r.copy(), method=mm, **kw)),
@@ -110,6 +121,8 @@ def mk_quat_ops():
     ops["FQA.acc-only"] = (amrow, lambda r: F.FQA().estimate(r[0]), lambda rs: F.FQA(A(rs)).Q, "exact")
     ops["AQUA.acc-mag"] = (amrow, lambda r: F.AQUA().estimate(r[0], r[1]), lambda rs: F.AQUA(acc=A(rs), mag=M(rs)).Q, "exact")
     ops["AQUA.acc-only"] = (amrow, lambda r: F.AQUA().estimate(r[0]), lambda rs: F.AQUA(acc=A(rs)).Q, "exact")
+    ops["Complementary.am_estimation"] = (amrow, lambda r: F.Complementary().am_estimation(r[0], r[1]), lambda rs: F.Complementary().am_estimation(A(rs), M(rs)), "exact")
+    ops["Complementary.am_estimation.acc-only"] = (amrow, lambda r: F.Complementary().am_estimation(r[0]), lambda rs: F.Complementary().am_estimation(A(rs)), "exact")
     return ops
 
 
@@ -134,7 +147,7 @@ ONE_SAMPLE = {
 
 def reform(row, form, op):
     """the same row in another form: integer dtype (raw counts) or scaled (non-normalised)"""
-    if form == "float" or op in ("from_rpy", "rpy2q", "euclidean", "rmse"):
+    if form == "float" or op in ("from_rpy", "from_angles", "rpy2q", "euclidean", "rmse", "is_pure", "is_real", "is_versor", "is_identity", "rmse_matrices"):
         return row          # angle triples have a documented range: not rescaled
     def one(x, k):
         x = np.asarray(x, dtype=float)
@@ -218,7 +231,7 @@ def replay_cases(recs):
 
 def run(chk):
     quick = chk.tier == "quick"
-    chk.rule = ("(twin pair, arrangement) cases enumerated by TLC: 47 twin pairs x arrangements of 6 row classes over N in {1,2,5} "
+    chk.rule = ("(twin pair, arrangement) cases enumerated by TLC: 58 twin pairs x arrangements of 6 row classes over N in {1,2,5} "
                 "(special rows -- half-turn, near-half-turn, near-identity, identity -- first / middle / last); distinct = distinct "
                 "(pair, arrangement); all arrangements with a non-identity row are non-trivial")
     chk.assume("row i of the array path equals the scalar path on row i within 1e-12 (up to sign only for eigen-solver outputs), NaN "
